@@ -21,6 +21,8 @@ CONSTS = {
     "core::num::<impl i64>::MIN": -2**63,
     "core::num::<impl u32>::MIN": 0,
     "core::num::<impl usize>::MIN": 0,
+    # rust-bitcoin: Weight is modelled by its weight-unit count
+    "bitcoin::Weight::MAX_BLOCK": 4_000_000,
 }
 
 
@@ -341,6 +343,9 @@ def _into(m, a, c):
         return int(v)
     if isinstance(v, int) and len(targs) >= 2 and targs[1] == "char" and targs[0] == "u8":
         return chr(v)
+    if len(targs) >= 2 and (targs[1].startswith("std::sync::Arc<") or targs[1].startswith("std::boxed::Box<")) \
+            and targs[1].split("<", 1)[1][:-1] == targs[0]:
+        return v
     if isinstance(v, Term):
         return Term("into", v, targs[1] if len(targs) > 1 else "?")
     return NOT_HANDLED
@@ -785,11 +790,24 @@ def _get(m, a, c):
     return some(it[i]) if 0 <= i < len(it) else NONE
 
 
+@reg("core::slice::<impl [T]>::last_mut", "core::slice::<impl [T]>::first_mut")
+def _last_mut(m, a, c):
+    v = deref(a[0])
+    if not isinstance(v, PyVec):
+        raise Unsupported("last_mut on %r" % (v,))
+    if not v.items:
+        return NONE
+    i = len(v.items) - 1 if c.get("name") == "last_mut" else 0
+    return some(MutRef(lambda: v.items[i], lambda x: v.items.__setitem__(i, x)))
+
+
 @reg("core::slice::<impl [T]>::iter", "core::slice::<impl [T]>::iter_mut")
 def _slice_iter(m, a, c):
     v = deref(a[0])
     if isinstance(v, Term):
         return Term("iter", v)
+    if c.get("name") == "iter_mut" and isinstance(v, PyVec):
+        return _elem_refs(v)
     return PyIter(items_of(v))
 
 
@@ -832,11 +850,20 @@ TRAIT_TABLE[("std::ops::IndexMut", "index_mut")] = _index
 
 # ---- iterators ---------------------------------------------------------------
 
+def _elem_refs(v):
+    def mk(i):
+        return MutRef(lambda: v.items[i], lambda x: v.items.__setitem__(i, x))
+    return PyIter([mk(i) for i in range(len(v.items))])
+
+
 @treg("std::iter::IntoIterator", "into_iter", first=True)
 def _into_iter(m, a, c):
     v = deref(a[0])
     if isinstance(v, PyIter):
         return v
+    targs = c.get("targs") or []
+    if isinstance(v, PyVec) and targs and targs[0].startswith("&mut "):
+        return _elem_refs(v)
     if isinstance(v, Term):
         return Term("iter", v)
     return PyIter(items_of(v))
@@ -903,6 +930,11 @@ def _iter_adapt(name):
             return PyIter(xs[:a[1]])
         if name == "collect":
             target = m.facts.ty(m.cur_call_ty) if m.cur_call_ty is not None else ""
+            targs = c.get("targs") or []
+            if len(targs) >= 2:
+                target = targs[1]
+            if target.startswith("std::collections::BTreeSet<") or target.startswith("std::collections::HashSet<"):
+                return PySet(xs)
             if target.startswith("std::result::Result<") or target.startswith("std::option::Option<"):
                 isres = target.startswith("std::result::Result<")
                 out = []
@@ -1289,7 +1321,40 @@ def _to_consensus(m, a, c):
     v = deref(a[0])
     if isinstance(v, Adt) and "0" in v.fields and isinstance(v.fields["0"], int):
         return v.fields["0"]
+    if isinstance(v, int) and not isinstance(v, bool):
+        return v
     return Term("to_consensus_u32", v)
+
+
+# rust-bitcoin lock-time types when represented by their consensus u32 (BIP-65 / BIP-68 / BIP-112 encoding)
+def _lock_int(v):
+    v = deref(v)
+    if isinstance(v, Adt) and "0" in v.fields:
+        v = v.fields["0"]
+    if isinstance(v, int) and not isinstance(v, bool):
+        return v
+    return None
+
+
+def _lock_pred(fn, name):
+    def h(m, a, c):
+        n = _lock_int(a[0])
+        if n is None:
+            return Term(name, deref(a[0]))
+        return fn(n)
+    return h
+
+
+TABLE["bitcoin::absolute::LockTime::from_consensus"] = lambda m, a, c: deref(a[0])
+TABLE["bitcoin::Sequence::from_consensus"] = lambda m, a, c: deref(a[0])
+TABLE["bitcoin::absolute::LockTime::is_block_height"] = _lock_pred(lambda n: n < 500_000_000, "is_block_height")
+TABLE["bitcoin::absolute::LockTime::is_block_time"] = _lock_pred(lambda n: n >= 500_000_000, "is_block_time")
+TABLE["bitcoin::Sequence::is_relative_lock_time"] = _lock_pred(lambda n: n & (1 << 31) == 0, "is_relative_lock_time")
+TABLE["bitcoin::Sequence::is_height_locked"] = _lock_pred(
+    lambda n: n & (1 << 31) == 0 and n & (1 << 22) == 0, "is_height_locked")
+TABLE["bitcoin::Sequence::is_time_locked"] = _lock_pred(
+    lambda n: n & (1 << 31) == 0 and n & (1 << 22) != 0, "is_time_locked")
+CONSTS["bitcoin::Sequence::ZERO"] = 0
 
 
 @reg("iter::tree::TreeLike::n_children")
@@ -1405,7 +1470,7 @@ def fmt_value(m, kind, x, f):
     raise Unsupported("formatting (%s) of %r" % (kind, x))
 
 
-@reg("std::fmt::Formatter::<'a>::write_str")
+@reg("std::fmt::Formatter::<'a>::write_str", "<std::fmt::Formatter<'_> as std::fmt::Write>::write_str")
 def _fmt_write_str(m, a, c):
     f = deref(a[0])
     s = deref(a[1])
@@ -1415,7 +1480,7 @@ def _fmt_write_str(m, a, c):
     return FMT_OK
 
 
-@reg("std::fmt::Formatter::<'a>::write_char")
+@reg("std::fmt::Formatter::<'a>::write_char", "<std::fmt::Formatter<'_> as std::fmt::Write>::write_char")
 def _fmt_write_char(m, a, c):
     f = deref(a[0])
     f.out.append(deref(a[1]))
@@ -1498,6 +1563,23 @@ def parse_template(tpl):
 def _fmt_write_fmt(m, a, c):
     f = deref(a[0])
     fa = deref(a[1])
+    if isinstance(f, Adt) and isinstance(fa, FmtArgs):
+        # a crate-local fmt::Write implementor: core::fmt::write renders the arguments with a fresh
+        # Formatter (default options) whose output goes through the implementor's write_str
+        ws = None
+        for imp in m.facts.impls_of(trait="std::fmt::Write", self_adt=f.path):
+            for it in imp["items"]:
+                if it["name"] == "write_str":
+                    ws = it["path"]
+        if ws is None:
+            raise Unsupported("write_fmt on %r" % (f,))
+        tmp = PyFmt(False)
+        r = _fmt_write_fmt(m, [tmp, fa], c)
+        for piece in tmp.out:
+            r2 = m.call_path(ws, [f, piece])
+            if is_res(r2, "Err"):
+                return r2
+        return r
     if not isinstance(f, PyFmt) or not isinstance(fa, FmtArgs):
         raise Unsupported("write_fmt(%r, %r)" % (f, fa))
     if fa.template is None:
@@ -1702,6 +1784,8 @@ def _try_from(m, a, c):
     v = deref(a[0])
     targs = c.get("targs") or []
     tgt = targs[0] if targs else c.get("self_ty")
+    if "Fe32" in (tgt or "") and getattr(m, "fe_try_from", None):
+        return m.fe_try_from(m, a, c)
     if isinstance(v, int) and not isinstance(v, bool) and tgt in INT_RANGES:
         lo, hi = INT_RANGES[tgt]
         if lo <= v <= hi:
@@ -1807,3 +1891,103 @@ def _end_bound(m, a, c):
     r = deref(a[0])
     hi = r.fields.get("end")
     return _bound(hi, r.path.endswith("RangeInclusive") or r.path.endswith("RangeToInclusive"))
+
+
+@treg("std::iter::Iterator", "size_hint", first=True)
+def _size_hint(m, a, c):
+    it = deref(a[0])
+    if isinstance(it, PyIter):
+        n = len(it.items) - it.pos
+        return (n, some(n))
+    return NOT_HANDLED
+
+
+@reg("std::array::from_fn")
+def _array_from_fn(m, a, c):
+    cargs = c.get("cargs") or []
+    n = None
+    for x in cargs:
+        try:
+            n = int(x)
+        except (TypeError, ValueError):
+            pass
+    if n is None:
+        raise Unsupported("array::from_fn with unknown length %r" % (cargs,))
+    return PyVec([m.call_value(a[0], [i]) for i in range(n)])
+
+
+
+
+
+@reg("bitcoin::Weight::to_wu", "bitcoin::Weight::from_wu")
+def _weight_wu(m, a, c):
+    v = deref(a[0])
+    if isinstance(v, Adt) and "0" in v.fields and c.get("name") == "to_wu":
+        return v.fields["0"]
+    return v
+
+
+@reg("std::sync::Mutex::<T>::new")
+def _mutex_new(m, a, c):
+    return Adt("std::sync::Mutex", "Mutex", {"0": a[0]})
+
+
+# ---- sets (BTreeSet / HashSet): concrete elements only ------------------------------------------
+
+class PySet(PyVec):
+    """a set with deterministic (sorted when possible) iteration order"""
+    __slots__ = ()
+
+    def __init__(self, items=None):
+        out = []
+        for x in (items or []):
+            x = deref(x)
+            if is_sym(x):
+                raise Unsupported("set of symbolic values")
+            if x not in out:
+                out.append(x)
+        try:
+            out.sort()
+        except TypeError:
+            pass
+        PyVec.__init__(self, out)
+
+
+@reg("std::collections::BTreeSet::<T>::new", "std::collections::HashSet::<T>::new",
+     "std::collections::HashSet::<T, S>::new")
+def _set_new(m, a, c):
+    return PySet()
+
+
+@reg("std::collections::BTreeSet::<T, A>::len", "std::collections::HashSet::<T, S, A>::len",
+     "std::collections::HashSet::<T, S>::len")
+def _set_len(m, a, c):
+    return len(deref(a[0]).items)
+
+
+@reg("std::collections::BTreeSet::<T, A>::insert", "std::collections::HashSet::<T, S, A>::insert",
+     "std::collections::HashSet::<T, S>::insert")
+def _set_insert(m, a, c):
+    s_, x = deref(a[0]), deref(a[1])
+    if is_sym(x):
+        raise Unsupported("set insert of a symbolic value")
+    if x in s_.items:
+        return False
+    s_.items.append(x)
+    try:
+        s_.items.sort()
+    except TypeError:
+        pass
+    return True
+
+
+@reg("std::collections::BTreeSet::<T, A>::contains", "std::collections::HashSet::<T, S, A>::contains",
+     "std::collections::HashSet::<T, S>::contains")
+def _set_contains(m, a, c):
+    return deref(a[1]) in deref(a[0]).items
+
+
+@reg("std::collections::BTreeSet::<T, A>::iter", "std::collections::HashSet::<T, S, A>::iter",
+     "std::collections::HashSet::<T, S>::iter")
+def _set_iter(m, a, c):
+    return PyIter(list(deref(a[0]).items))
